@@ -158,6 +158,79 @@ def _helper_rec(facts, f, region, helper_names, names):
     return None
 
 
+
+def byteset_rule(ctx, r):
+    """non_matching_bytes() is a ByteSet from which every byte a pattern can match was removed. That a byte really leaves
+    the set is decided by (a) writer/reader agreement: add, remove and contains compute the same (bucket, bit) pair from the
+    byte, remove clears exactly that bit, contains tests it; (b) the range forms remove_all / add_all being the per-byte loop
+    over start..=end. A word-wise range form would need arithmetic reasoning about masks, which this technique does not do:
+    it is reported as not decidable (failing closed) rather than accepted."""
+    facts = ctx.facts
+    BS = "grep_matcher::ByteSet::"
+
+    def addr(f):
+        eb = ExprBuilder(f)
+        out = []
+        for bb, j, st in f.stmts():
+            if st["k"] != "assign":
+                continue
+            e = eb.rvalue(st["rv"])
+            for x in walk(e):
+                if x.k == "bin" and x[1] == "Shl":
+                    out.append(("bit", show(x[3])))
+        idx = [show(eb.operand(c.args[0])) for c in f.calls() if c.path == "core::convert::From::from"]
+        return eb, sorted(set(out)), sorted(set(idx))
+    shapes = {}
+    for nm in ("add", "remove", "contains"):
+        f = facts.fn(BS + nm)
+        eb, bits, idx = addr(f)
+        shapes[nm] = (bits, idx)
+        if nm == "contains":
+            e = eb.local(0)
+            okv = isinstance(e, X) and e.k == "bin" and e[1] in ("Gt", "Ne") and any(x.k == "bin" and x[1] == "BitAnd" for x in walk(e))
+            what = "tests the bit"
+        else:
+            ws = [eb.rvalue(st["rv"]) for bb, j, st in f.stmts() if st["k"] == "assign" and st["place"]["p"] and
+                  any(isinstance(q, dict) and "idx" in q for q in st["place"]["p"])]
+            if nm == "add":
+                okv = len(ws) == 1 and ws[0].k == "bin" and ws[0][1] == "BitOr" and ws[0][3].k == "bin" and ws[0][3][1] == "Shl"
+                what = "sets the bit"
+            else:
+                okv = len(ws) == 1 and ws[0].k == "bin" and ws[0][1] == "BitAnd" and ws[0][3].k == "not" and \
+                    ws[0][3][1].k == "bin" and ws[0][3][1][1] == "Shl"
+                what = "clears exactly the bit (`&= !(1 << bit)`)"
+        if okv and len(bits) == 1 and len(idx) == 1:
+            r.ok("byteset|" + nm, "%s at bucket %s, bit %s" % (what, idx[0], bits[0][1]), fn=f)
+        else:
+            r.bad("byteset|" + nm, "ByteSet::%s no longer %s of one (bucket, bit) pair computed from the byte (buckets %s, shifts %s)"
+                  % (nm, what.split(" (")[0], idx, bits), fn=f, construct="byteset")
+    if len({(tuple(b), tuple(i)) for b, i in shapes.values()}) != 1:
+        f = facts.fn(BS + "contains")
+        r.bad("byteset|agree", "ByteSet::add / remove / contains do not compute the same bucket and bit for a byte (%s): a byte removed "
+              "from non_matching_bytes can still be reported as never matching" % shapes, fn=f, construct="byteset")
+    else:
+        r.ok("byteset|agree", "add, remove and contains address bucket %s, bit %s" % (shapes["add"][1], shapes["add"][0]), fn=facts.fn(BS + "contains"))
+    for nm, one in (("remove_all", "remove"), ("add_all", "add")):
+        f = facts.fn(BS + nm)
+        eb = ExprBuilder(f)
+        rn = f.calls_to("core::ops::range::RangeInclusive::new")
+        each = f.calls_to(BS + one)
+        ok_ = False
+        if rn and each:
+            a0, a1 = strip(eb.operand(rn[0].args[0])), strip(eb.operand(rn[0].args[1]))
+            item = eb.operand(each[0].args[1])
+            ok_ = a0.k == "arg" and a0[1] == 2 and a1.k == "arg" and a1[1] == 3 and \
+                any(is_call(x, "core::iter::traits::iterator::Iterator::next") for x in walk(item)) and \
+                any(is_call(x, "core::ops::range::RangeInclusive::new") for x in walk(item)) and \
+                not any(x.k == "bin" for x in walk(item))
+        if ok_:
+            r.ok("byteset|" + nm, "for b in start..=end { %s(b) }" % one, fn=f)
+        else:
+            r.bad("byteset|" + nm, "ByteSet::%s is no longer the per-byte loop `for b in start..=end { %s(b) }`: whether every byte of "
+                  "the range is %s cannot be decided from the shape of the code any more (the bytes of a class range that stay "
+                  "in non_matching_bytes are then promised never to occur in a match although they do)"
+                  % (nm, one, "removed" if one == "remove" else "added"), fn=f, construct="byteset")
+
 def run(ctx):
     facts = ctx.facts
     with ctx.rule("C11.ARMS", "HirKind walkers: explicit arm per variant, recursion into all children, leaves handled", floor=28,
@@ -344,6 +417,9 @@ def run(ctx):
         else:
             r.bad("gate|consulted", "is_fixed_strings no longer checks literals for the line terminator", fn=isf)
 
+    with ctx.rule("C11.BYTESET", "ByteSet: add / remove / contains address the same bucket and bit of a byte; the range forms are the "
+                  "per-byte ones", floor=5, kind="PARITY") as r:
+        byteset_rule(ctx, r)
     with ctx.rule("C11.EXACT", "exactness bookkeeping of the inner-literal extractor", floor=9, kind="PASS/GUARD") as r:
         exact_rule(ctx, r)
     with ctx.rule("C11.GATE", "no extraction without a terminator; terminator withheld under haystack anchors; candidate/confirmed sources",
